@@ -528,6 +528,29 @@ class Interp:
                     res = self.inline(g, ("attr", base, attr), (), (), path, node)
                     if res is not None and len(res) == 1 and res[0][0] == "value":
                         return res[0][2]
+        # a field of a plain instance built right here whose __init__ only stores its parameters:  _Guard(lock)._lock
+        if base[0] == "call" and base[1][0] == "glob" and base[1][1] in self.program.classes and not any(a[0] == "star" for a in base[2]) and all(k for k, _v in base[3]):
+            pc = self.program.classes[base[1][1]]
+            init = self.program.lookup_method(pc, "__init__")
+            if init is not None and init.cls is not None and self._record_fields(pc) is None and not init.node.args.vararg and not init.node.args.kwarg:
+                params = init.params()
+                given = dict(zip(params, base[2]))
+                given.update(dict(base[3]))
+                a_ = init.node.args
+                pos_ = [x.arg for x in a_.posonlyargs + a_.args][1:]
+                dflt = dict(zip(pos_[len(pos_) - len(a_.defaults):], a_.defaults)) if a_.defaults else {}
+                dflt.update({x.arg: d for x, d in zip(a_.kwonlyargs, a_.kw_defaults) if d is not None})
+                stores = [(t_, v_) for t_, v_ in ((st_.targets[0], st_.value) for st_ in init.node.body if isinstance(st_, ast.Assign) and len(st_.targets) == 1) if isinstance(t_, ast.Attribute) and dotted(t_.value) == "self" and t_.attr == attr]
+                everywhere = [n for n in ast.walk(pc.node) if isinstance(n, ast.Attribute) and n.attr == attr and isinstance(n.ctx, (ast.Store, ast.Del))]
+                if len(stores) == 1 and len(everywhere) == 1:
+                    v_ = stores[0][1]
+                    if isinstance(v_, ast.Name) and v_.id in params:
+                        if v_.id in given:
+                            return given[v_.id]
+                        if isinstance(dflt.get(v_.id), ast.Constant):
+                            return ("const", dflt[v_.id].value)
+                    elif isinstance(v_, ast.Constant):
+                        return ("const", v_.value)
         # self.<record>.<field> where the class publishes exactly that as the property  <p>: return self.<record>.<field>
         # is the same value as self.<p> (state gathered into one private record, old names kept as properties)
         if base[0] == "attr" and base[1] == SELF and self.func is not None and self.func.cls is not None:
@@ -2384,6 +2407,58 @@ class Interp:
                         outs.append(o)
                 if outs is not None:
                     return outs
+        # --- contextlib.suppress(E, ...): the block with those exceptions swallowed
+        ce = item.context_expr
+        cur_ = self._cur()
+        if isinstance(ce, ast.Call) and self.program.resolve(cur_.module if cur_ is not None else self.module, ce.func) == "ext:contextlib.suppress" and ce.args and not ce.keywords and item.optional_vars is None and not isinstance(st, ast.AsyncWith):
+            handler = ast.ExceptHandler(type=ce.args[0] if len(ce.args) == 1 else ast.Tuple(elts=list(ce.args), ctx=ast.Load()), name=None, body=[ast.Pass()])
+            tr = ast.Try(body=list(st.body), handlers=[handler], orelse=[], finalbody=[])
+            for n in ast.walk(tr):
+                if not hasattr(n, "lineno"):
+                    ast.copy_location(n, st)
+            ast.fix_missing_locations(tr)
+            return self.s_Try(tr, path)
+        # --- an own context manager CLASS whose __exit__ never swallows:  x = C(...).__enter__(); try: BODY finally: __exit__
+        if isinstance(ce, ast.Call) and not isinstance(st, ast.AsyncWith) and self.depth < self.MAX_INLINE:
+            q = self.program.resolve(cur_.module if cur_ is not None else self.module, ce.func)
+            cmc = self.program.classes.get(q) if q else None
+            ent = self.program.lookup_method(cmc, "__enter__") if cmc is not None else None
+            ext = self.program.lookup_method(cmc, "__exit__") if cmc is not None else None
+            if ent is not None and ext is not None and ent.cls is not None and ext.cls is not None and not ent.is_async and not ext.is_async:
+                from .util import walk_no_nested
+
+                swallows = any(isinstance(r, ast.Return) and r.value is not None and not (isinstance(r.value, ast.Constant) and not r.value.value) for r in walk_no_nested(ext.node))
+                if not swallows:
+                    outs = []
+                    for k, p2, v in self.eval(ce, path):
+                        if k == "raise":
+                            outs.append(Outcome("raise", p2, v))
+                            continue
+                        p2.ev("with-enter", v, st.lineno)
+                        res = self.inline(ent, ("attr", v, "__enter__"), (), (), p2, st)
+                        if res is None:
+                            outs = None
+                            break
+                        for k3, p3, v3 in res:
+                            if k3 == "raise":
+                                outs.append(Outcome("raise", p3, v3))
+                                continue
+                            paths = [p3]
+                            if item.optional_vars is not None:
+                                paths = []
+                                for o in self.assign(item.optional_vars, v3, p3, st.lineno):
+                                    (paths.append(o.path) if o.kind == "normal" else outs.append(o))
+                            for p4 in paths:
+                                for o in self.exec_block(st.body, p4):
+                                    # __exit__ runs on every way out of the block; what it raises replaces the outcome
+                                    exits = self.inline(ext, ("attr", v, "__exit__"), (NONE, NONE, NONE), (), o.path, st)
+                                    if exits is None:
+                                        raise Undecided("__exit__ of %s is not modelled" % cmc.qual, st)
+                                    for k5, p5, v5 in exits:
+                                        p5.ev("with-exit", st.lineno, o.kind)
+                                        outs.append(Outcome("raise", p5, v5) if k5 == "raise" else Outcome(o.kind, p5, o.value))
+                    if outs is not None:
+                        return outs
         outs = []
         for k, p2, v in self.eval(item.context_expr, path):
             if k == "raise":
